@@ -87,6 +87,12 @@ namespace cppcms {
 				}
 			}
 
+			///
+			/// The close delimiter ("--boundary--") has been consumed completely. The CRLF after it
+			/// is optional (RFC 2046: it belongs to the epilogue), so a body may end here.
+			///
+			bool close_delimiter_seen() const { return state_ == expecting_eof_cr; }
+
 			bool has_file() { return file_is_ready_; }
 			http::file &get_file()
 			{
